@@ -128,10 +128,15 @@ class Builder:
             d[b"Count"] = 0
         else:
             x, y = node["pt"]
-            cn = self.alloc()
-            content = b"BT /F1 10 Tf %s %s Td (%s) Tj ET" % (str(float(x)).encode(), str(float(y)).encode(), node["text"].encode())
-            self.objs[cn] = W.Stream({}, content)
-            d[b"Contents"] = W.R(cn)
+            if node.get("blank"):
+                # /Contents is optional: a page without it (or with an empty array) is a blank page, but it is a page
+                if node["blank"] == "empty-array":
+                    d[b"Contents"] = []
+            else:
+                cn = self.alloc()
+                content = b"BT /F1 10 Tf %s %s Td (%s) Tj ET" % (str(float(x)).encode(), str(float(y)).encode(), node["text"].encode())
+                self.objs[cn] = W.Stream({}, content)
+                d[b"Contents"] = W.R(cn)
         self.objs[num] = d
 
     # ---- independent walker over the abstract tree
@@ -278,7 +283,7 @@ def run_case(case):
         if corners:
             # (where the page box and the glyphs land for such a MediaBox is not asserted)
             chars = [c for c in interp.leaves(lt) if isinstance(c, LTChar)]
-            if "".join(c.get_text() for c in chars) != node["text"]:
+            if "".join(c.get_text() for c in chars) != ("" if node.get("blank") else node["text"]):
                 return Outcome(classes, nt, fail="page %d text %r expected %r; %s" % (
                     i, "".join(c.get_text() for c in chars), node["text"], desc()))
             continue
@@ -286,6 +291,10 @@ def run_case(case):
             return Outcome(classes, nt, fail="page %d LTPage.bbox %r expected %r (rotate %d, mediabox %r); %s" % (
                 i, lt.bbox, ebox, rot, mb, desc()))
         chars = [c for c in interp.leaves(lt) if isinstance(c, LTChar)]
+        if node.get("blank"):
+            if chars:
+                return Outcome(classes, nt, fail="page %d has no /Contents but shows %r; %s" % (i, "".join(c.get_text() for c in chars), desc()))
+            continue
         if "".join(c.get_text() for c in chars) != node["text"]:
             return Outcome(classes, nt, fail="page %d text %r expected %r; %s" % (
                 i, "".join(c.get_text() for c in chars), node["text"], desc()))
@@ -354,7 +363,7 @@ def run_case(case):
         return Outcome(classes, nt, fail="selection raised %s: %s; sel=%r %s" % (type(e).__name__, e, sel, desc()))
     ids = [b.nodes[exp[i][0]] for i in want]
     # layout analysis reorders the glyphs of rotated pages: page texts are compared as sorted characters
-    texts = ["".join(sorted(exp[i][1]["text"])) for i in want]
+    texts = ["" if exp[i][1].get("blank") else "".join(sorted(exp[i][1]["text"])) for i in want]
     if got1 != ids:
         return Outcome(classes, nt, fail="get_pages(pagenos=%r, maxpages=%r) gave pages %r expected indices %r = %r; n=%d" % (
             pn, mp, got1, want, ids, n))
@@ -409,7 +418,8 @@ def tree(draw, depth, budget, cyc):
     if depth >= draw(st.integers(1, 6)) or budget[0] <= 0:
         budget[0] -= 1
         a = draw(attrs())
-        return {"kind": "page", "attrs": a, "nulls": nulls(draw, a), "pt": (Fr(1), Fr(1)), "text": "P"}
+        return {"kind": "page", "attrs": a, "nulls": nulls(draw, a), "pt": (Fr(1), Fr(1)), "text": "P",
+                "blank": draw(st.sampled_from([None] * 8 + ["absent", "empty-array"]))}
     a = draw(attrs())
     node = {"kind": "pages", "attrs": a, "nulls": nulls(draw, a), "kids": [], "kids_ind": draw(st.integers(0, 3)) == 0}
     for _ in range(draw(st.integers(0, 5))):
